@@ -11,7 +11,7 @@ D = decimal.Decimal
 CASES = {'quick': 8000, 'thorough': 120000}
 SMALL_BLOCKS = 4      # runner: every 4th case keeps its stores in 2..10-token blocks
 GATES = {
-    'quick': {'cases_in_small_blocks': 50, 'evaluations': 5000, 'refused_calls_judged': 4500, 'site:attached-node-in-batch': 400, 'site:attached-node-single': 500,
+    'quick': {'site:token-twice-in-batch': 50, 'cases_in_small_blocks': 50, 'evaluations': 5000, 'refused_calls_judged': 4500, 'site:attached-node-in-batch': 400, 'site:attached-node-single': 500,
               'site:index-or-key': 700, 'site:size-mismatch': 200, 'site:raw-text': 300, 'site:cost-combination': 100, 'site:cost-attached': 100,
               'site:arithmetic-attached': 200, 'site:claim-refused': 300, 'site:payee-attached': 50, 'site:store-foreign-token': 100,
               'site:whole-store-child': 50, 'batch_positions_seen': 3},
@@ -115,7 +115,7 @@ GARBAGE = ['garbage', '', '"unterminated', '2000-13-45', 'TRUE1', '12x', '#', 'a
 def special_step(col, r, f, text, log):
     """One deliberately invalid call outside the catalog. Returns False to end the history."""
     kind = r.choice(['raw-text', 'raw-text', 'cost-combination', 'cost-attached', 'arithmetic-attached', 'claim-refused', 'claim-refused',
-                     'payee-attached', 'store-foreign-token', 'whole-store-child'])
+                     'payee-attached', 'store-foreign-token', 'whole-store-child', 'token-twice-in-batch'])
     donors = []
     call = None
     nodes = list(walker.walk(f))
@@ -232,6 +232,17 @@ def special_step(col, r, f, text, log):
             call = lambda: st.insert_before(toks[a], batch)
         else:
             call = lambda: st.replace(toks[a], next(t for t in batch if t.store_handle is not None))
+    elif kind == 'token-twice-in-batch':
+        # the same free token twice in one batch of raw spacing / of a store call: it cannot sit at two places
+        sp = [(p, m) for p, m in nodes if hasattr(type(m), 'raw_spacing_before') and m is not f]
+        if not sp:
+            return True
+        p_, m_ = r.choice(sp)
+        ws = r.choice([models.Whitespace.from_raw_text('   '), models.Newline.from_default()])
+        batch = [ws, ws] if r.random() < 0.5 else [ws, models.Whitespace.from_default(), ws]
+        side = r.choice(['raw_spacing_before', 'raw_spacing_after'])
+        desc = f'{p_}.{side} = <batch holding one new token twice>'
+        call = lambda: setattr(m_, side, batch)
     else:  # whole-store-child: a child that spans its parent's whole private store looks free to detach()
         es = [m for p, m in nodes if isinstance(m, models.NumberExpr)]
         if not es:
@@ -276,6 +287,10 @@ def special_step(col, r, f, text, log):
     if kind == 'store-foreign-token':
         col.ev()
         col.violation('store-foreign-token:accepted', f'{desc} was accepted', wit)
+        return False
+    if kind == 'token-twice-in-batch':
+        col.ev()
+        col.violation('token-twice-in-batch:accepted', f'{desc} was accepted: one token object now sits at two places of the store', wit)
         return False
     log.append(desc)
     return True
